@@ -47,6 +47,28 @@ theorem no_torn_document (C : Codec) (N : Naming) (fs : Files) (d : SDoc) (tmp :
   · exact Or.inr (h ▸ hx)
   · rw [h] at hx; cases hx; exact Or.inl rfl
 
+/-- a write that is cut short and *fails* (full disk, quota, file-size limit) instead of killing the
+    process leaves the directory in a state a crash inside that write leaves: so as long as the
+    store stops there — reports the error, renames nothing — `store_atomic` speaks about it too -/
+theorem failed_write_is_a_crash_state (C : Codec) (N : Naming) (fs : Files) (d : SDoc) (tmp : String)
+    (k : Nat) (hk : k < (C.enc d).length) :
+    apply (apply fs (.create tmp)) (.write tmp ((C.enc d).take k)) ∈ crashStates fs (storeOps C N d tmp) := by
+  unfold storeOps
+  simp only [crashStates]
+  apply List.mem_cons_of_mem
+  apply List.mem_cons_of_mem
+  apply List.mem_append_left
+  exact List.mem_map.mpr ⟨k, List.mem_range.mpr hk, rfl⟩
+
+/-- … and then a retrieve of the identifier gives what it gave before the store (the entry was not
+    touched), any other identifier likewise -/
+theorem failed_write_keeps_entries (C : Codec) (N : Naming) (fs : Files) (d : SDoc) (tmp : String)
+    (hid : d.id ≠ "") (htmp : ∀ i, N.entry i ≠ tmp) (k : Nat) (hk : k < (C.enc d).length) (id : String) :
+    let s := apply (apply fs (.create tmp)) (.write tmp ((C.enc d).take k))
+    (id = d.id → retrieve C N s id = retrieve C N fs id ∨ retrieve C N s id = .ok d) ∧
+    (id ≠ d.id → retrieve C N s id = retrieve C N fs id) :=
+  store_atomic C N fs d tmp hid htmp _ (failed_write_is_a_crash_state C N fs d tmp k hk) id
+
 /-- the number of crash points explored for a document of `n` encoded bytes -/
 theorem crash_points (C : Codec) (N : Naming) (fs : Files) (d : SDoc) (tmp : String) :
     (crashStates fs (storeOps C N d tmp)).length = (C.enc d).length + 5 := by
